@@ -4,6 +4,7 @@ import NitroVerif.Drv.Fmt
 import NitroVerif.Drv.FV
 import NitroVerif.Drv.Hash
 import NitroVerif.Drv.Iter
+import NitroVerif.Drv.Own
 
 /-!
 `nvdriver model`  : one case per line on stdin, the model's answer per line on stdout.
@@ -19,6 +20,7 @@ def modelLine (line : String) : String :=
   | "fv" :: rest => Drv.FV.model rest
   | "hash" :: rest => Drv.Hash.model rest
   | "iter" :: rest => Drv.Iter.model rest
+  | "own" :: rest => Drv.Own.model rest
   | _ => "bad-op"
 
 def judgeLine (line : String) : String :=
@@ -30,6 +32,7 @@ def judgeLine (line : String) : String :=
     | "fv" :: rest => Drv.FV.judge rest ans
     | "hash" :: rest => Drv.Hash.judge rest ans
     | "iter" :: rest => Drv.Iter.judge rest ans
+    | "own" :: rest => Drv.Own.judge rest ans
     | _ => "bad-op"
   | _ => "bad-op"
 
